@@ -32,7 +32,7 @@ import numpy as np
 from . import heapgen as hg
 from .alisession import TITLE
 
-Y_OPS = ("writegro", "updtop", "molset", "molget", "index", "hash", "dupindex")
+Y_OPS = ("writegro", "updtop", "molset", "molget", "index", "hash", "dupindex", "idsbad", "resnamebad")
 Y_READONLY = ("writegro", "molget", "index", "hash")
 
 
@@ -92,10 +92,11 @@ def ext_ok(name):
 def add_ops(add, kind, crowded):
     """extra (op, weight) pairs of grammar 3 for a handle of this kind"""
     if kind == "mol":
-        for name, wt in (("writegro", 3.0), ("updtop", 3.0), ("molset", 3.5), ("molget", 2.0), ("index", 3.5)):
+        for name, wt in (("writegro", 3.0), ("updtop", 3.0), ("molset", 3.5), ("molget", 2.0), ("index", 3.5),
+                         ("idsbad", 0.8), ("resnamebad", 0.3)):
             add(name, wt)
     elif kind == "res":
-        for name, wt in (("writegro", 4.0), ("updtop", 3.0), ("index", 0.3)):
+        for name, wt in (("writegro", 4.0), ("updtop", 3.0), ("index", 0.3), ("idsbad", 1.0), ("resnamebad", 0.8)):
             add(name, wt)
     elif kind == "agro":
         for name, wt in (("writegro", 0.3), ("updtop", 0.3), ("index", 0.3)):
@@ -350,6 +351,9 @@ def do_step_y(ctx, c18, w, rng, mode, op, i, rec):
                     ctx.count(f"updtop:mismatch-raises-{st}-instead-of-ValueError:{kind}")
                 if not hg.bits_equal(before, after):
                     ctx.oracle_fail("c18:update:changed-before-the-length-check", case, {"op": w.desc[-1]})
+            elif st == "ok" and len({id(a) for a in hg.gro_atoms(o)}) != len(hg.gro_atoms(o)):
+                # `atom + atom` with the same atom twice builds a Residue that holds one object twice: the later name wins
+                ctx.count("updtop:residue-holds-an-atom-twice")
             elif st == "ok":
                 gn, tn = _names_of(after)
                 if gn is not None and gn != want_names[:len(gn)]:
@@ -409,6 +413,24 @@ def do_step_y(ctx, c18, w, rng, mode, op, i, rec):
                     ctx.oracle_fail("c18:index:not-the-first-equal-atom", case, {"op": w.desc[-1], "got": got, "want": want})
                 if how == "own-view" and isinstance(want, int) and w.meta[j].get("k") == want:
                     ctx.count("index:own-view-found-at-its-position")
+    elif op in ("idsbad", "resnamebad"):
+        rec["alloc_only"] = True            # refused before anything is assigned: nothing at all may change
+        if op == "idsbad":
+            nl = len(o)
+            nn = nl if rng.random() < 0.7 else max(0, nl + rng.choice([-1, 1]))
+            bad = [1.5] * nn if rng.random() < 0.6 else ["7"] * nn
+
+            def fn():
+                o.atoms_ids = bad
+            st, _ = w.run(f"idsbad {i} {nn}", f"{kind}[{i}].atoms_ids={bad!r}", fn)
+        else:
+            def fn():
+                o.resname = 7
+            st, _ = w.run(f"resnamebad {i}", f"{kind}[{i}].resname=7", fn)
+        ctx.count(f"{op}:{kind}:{st}")
+        ctx.oracle_ok(1)
+        if st == "ok":
+            ctx.oracle_fail(f"c18:setter:ill-typed-value-accepted:{op}", case, {"op": w.desc[-1]})
     elif op == "hash":
         st, ret = w.run(f"hash {i}", f"hash(atom[{i}])", lambda: (hash(o),))
         if st == "ok":
@@ -570,4 +592,24 @@ def evaluate_mol_routes(ctx, case):
                 ctx.disagree(case, f"C18 dir({what})", sorted(got)[:60], m[:60])
         enc = " ".join(" ".join([str(len(p))] + [hg.hexs(n) for n in p]) for p in parts)
         ctx.model.ask("dirunion", enc, cbd, case)
+    # --- Molecule.from_files: a file with ONE molecule gives that molecule, with two it is refused (IOError)
+    from gaddlemaps.components import Molecule, System
+    d = os.path.join(ctx.scratch, "apiy-routes")
+    sp = {"name": "SPR", "atoms": [(1, "RA", "A1"), (1, "RA", "A2"), (2, "RB", "B1")], "bonds": [(0, 1), (1, 2)],
+          "sizes": [2, 1]}
+    f2 = os.path.join(d, "r2.gro")
+    lines = [hg.gro_line(r + 2 * m_, rn, an, k + 1 + 3 * m_, (0.125 * k, 0.5 * m_, 0.25))
+             for m_ in range(2) for k, (r, rn, an) in enumerate(sp["atoms"])]
+    hg.write_gro(f2, lines)
+    ctx.oracle_ok(2)
+    try:
+        Molecule.from_files(f2, os.path.join(d, "r.itp"))
+        ctx.oracle_fail("c18:from_files:two-molecules-not-refused", case, {})
+    except OSError:
+        ctx.count("from_files:two-molecules:OSError")
+    except Exception as e:   # noqa: BLE001
+        ctx.oracle_fail("c18:from_files:two-molecules-raises-" + hg.exc_name(e), case, {})
+    one = Molecule.from_files(os.path.join(d, "r.gro"), os.path.join(d, "r.itp"))
+    if hg.observe(one) != hg.observe(System(os.path.join(d, "r.gro"), os.path.join(d, "r.itp"))[0]):
+        ctx.oracle_fail("c18:from_files:not-the-system's-only-molecule", case, {})
     ctx.case({"kind": "molroutes", "names": len(names)}, nontrivial=False, sample={"names": names[:8], "n": len(names)})
